@@ -26,6 +26,29 @@ def main():
         return cache[i]
 
     out = []
+    if spec.get("mode") == "alloc":
+        # memory: an address-space cap (so that a runaway allocation fails here instead of hurting the machine) and the
+        # traced peak of each decode
+        import resource
+        import time
+        import tracemalloc
+
+        for i, hx in spec["cases"]:
+            cls_of(i)
+        cap = int(spec.get("cap", 3 * 2**30))
+        resource.setrlimit(resource.RLIMIT_AS, (cap, cap))
+        tracemalloc.start()
+        for i, hx in spec["cases"]:
+            data = bytes.fromhex(hx)
+            tracemalloc.reset_peak()
+            base = tracemalloc.get_traced_memory()[0]
+            t0 = time.perf_counter()
+            dec = cc.impl_decode(cls_of(i), data)
+            dt = time.perf_counter() - t0
+            peak = tracemalloc.get_traced_memory()[1] - base
+            out.append([dec[0], dec[1] if dec[0] == "err" else "value", peak, round(dt, 4)])
+        json.dump(out, sys.stdout)
+        return
     for i, hx in spec["cases"]:
         dec = cc.impl_decode(cls_of(i), bytes.fromhex(hx))
         out.append(["ok", to_json(dec[1]), len(dec[2])] if dec[0] == "ok" else ["err", dec[1]])
